@@ -187,8 +187,8 @@ def finish(pid, mod, tier, seed, reports, wall, verbose=False):
         d = os.path.join(REPLAYS, pid); os.makedirs(d, exist_ok=True)
         path = os.path.join(d, re.sub(r'[^A-Za-z0-9_.-]+', '_', '%s_%s' % (o['unit'], o['name']))[:120] + '.json')
         json.dump({'property': pid, 'obligation': o, 'tier': tier, 'how_to_replay': './check %s --replay %s' % (pid, path)}, open(path, 'w'), indent=1, default=str)
+        if path not in vio_files: lines.append('VIOLATION property=%s replay=%s' % (pid, path))
         vio_files.append(path)
-        lines.append('VIOLATION property=%s replay=%s' % (pid, path))
     harness_problem = bool(errors or vac_bad or self_bad or unreplayed or unknown or inconcl)
     # evidence
     samples = [o.get('sample', o['name']) for o in obs[:: max(1, len(obs) // 12)]][:14]
